@@ -43,7 +43,12 @@ def gen(rs: int, tier: str, index: int) -> dict:
         # the worker is started through the real `taskiq worker` child entry point (cli/worker/run.py start_listen) and stopped by a signal
         from sim.rng import stream
         s["config"]["entry"] = "cli"
-        s["config"]["stop_signal"] = stream(rs, "c05cli").choice(["SIGINT", "SIGTERM", "SIGHUP"])
+        r = stream(rs, "c05cli")
+        s["config"]["stop_signal"] = r.choice(["SIGINT", "SIGTERM", "SIGHUP"])
+        # up to hardkill_count + 1 signals are a graceful request (the hard kill starts with the next one)
+        hk = r.choice([0, 1, 3, 3])
+        s["config"]["hardkill_count"] = hk
+        s["config"]["extra_signals"] = [[r.choice([0, 1, 1000, 100_000, 400_000]), r.choice(["SIGINT", "SIGTERM"])] for _ in range(r.randint(0, hk))]
     return s
 
 
